@@ -113,6 +113,9 @@ def run(ck):
     ck.rule('C13.R2 variants of Extension::len', nl, 6)
     # ------------------------------------------------------------------ R3 lengths of encap_ext (C06 instances)
     c06.run(ck, writers=('encap_ext',), pid_rules='C13.R3', floors=(8, 4, 20))
+    # the total length / CRC arguments of a fragmented extension-bearing PDU are those the receiver recomputes (C03.R2/R3)
+    from rules import c12
+    c12.crc_call_sites(ck, 'C13.R3', writers=('encap_ext',), floor=4)
     # ------------------------------------------------------------------ R4 only decodable combinations are accepted
     wa = analyse_writer(ck, ENC + 'encap_ext', extra=c09.ENCCFG)
     env = writer_env(ck, wa, 'encap_ext')
